@@ -405,6 +405,12 @@ PlansC03(st) ==
   \cup (IF st.kind # "open"
         THEN {Plan("list", "not_accept", <<M(kd), FalseValue(st)>>) : kd \in {"list_empty", "list_trunc", "list_extend"}}
         ELSE {})
+  \* PST13: the point shown with one more coordinate e and the witness list with one more element
+  \* w = +-(xi delta / e) g  (xi = the public opening challenge): only the pairing of EVERY witness with its own
+  \* beta_j h - z_j h (or the refusal of a list longer than the key) stands between this and acceptance
+  \cup (IF S = "pst13" /\ st.kind = "open" /\ Len(GroupsOfStmt(st)[1].labels) = 1
+        THEN {Plan("forge_extra_witness", "not_accept", <<ProofMut(1, "wlen_forged", k)>>) : k \in {0, 1}}
+        ELSE {})
   \cup CompensatePlans(st)
   \* IPA: for a false value, the final commitment key is SOLVED from the succinct part of the relation
   \* (c K + c h(z) h' = Q, all public) and put into the proof of every group in turn: only the final-key check
@@ -426,6 +432,10 @@ PlansC04(st) ==
       \* of a neighbouring bound
       ld \in {x \in BoundedLabels \X (IF S = "ipa" THEN 1..HonSup(keys) ELSE 1..pp.maxdeg) :
                  ~SameBound(x[2], polys[x[1]].bound) /\ (x[2] >= DegOf(polys[x[1]]) \/ x[2] \notin BoundSet(keys))}}
+  \* made under NO bound (no degree-bound part at all), labelled d: nothing shows that the degree is at most d
+  \cup {Plan("add_label", "not_accept", <<[M("relabel_bound") EXCEPT !.l = ld[1], !.d = ld[2]]>>) :
+          ld \in {x \in {l \in L : BoundOf(polys[l]) = NONE /\ polys[l].cls # "zero" /\ (Contributing(polys[l]) \/ S # "sonic")}
+                       \X (IF S = "ipa" THEN 1..HonSup(keys) ELSE 1..pp.maxdeg) : ~SameBound(x[2], NONE)}}
   \* the degree-bound part dropped / randomised: for a polynomial that contributes to the proof
   \* (for an unblinded constant, "no bound" is a true statement and the proof is trivial)
   \cup {Plan("drop_shifted", "not_accept", <<[M(lk[2]) EXCEPT !.l = lk[1]]>>) :
@@ -598,7 +608,7 @@ ApplyToStmt(st, m) ==
     [] m.kind = "random_comm" -> [st EXCEPT !.comms[m.l].plain = "random"]
     [] m.kind = "sponge_perturb" -> [st EXCEPT !.pre = <<AB(99, 0, 0, 0)>>]
     [] m.kind = "vk_mut" -> [st EXCEPT !.vkmut = m.comp]
-    [] m.kind = "proof_mut" /\ m.comp \in ForgeKinds ->
+    [] m.kind = "proof_mut" /\ m.comp \in ForgeKinds \cup {"wlen_forged"} ->
          [st EXCEPT !.deltas[FirstKey(st)] = 1]
     [] m.kind = "lc_coeff" ->
          LET j == LcByLabel(st.lcs, m.l) IN [st EXCEPT !.lcs[j].terms[m.k + 1][1] = @ + 1]
@@ -631,7 +641,7 @@ ApplyToProofs(ps, st, m) ==
              ent == IF S = "hyrax" \/ LinCode(S)
                     THEN (IF m.k = 1 /\ m.comp \in Components /\ g \in DOMAIN ps THEN ps[g].n ELSE 1)
                     ELSE 0
-             nm == IF m.comp \in {"rounds_unequal"} THEN "rounds" ELSE m.comp IN
+             nm == IF m.comp \in {"rounds_unequal"} THEN "rounds" ELSE IF m.comp = "wlen_forged" THEN "wlen" ELSE m.comp IN
          IF g \notin DOMAIN ps THEN ps
          ELSE IF m.comp = "inner_empty" THEN [ps EXCEPT ![g].n = 0]
          ELSE IF m.comp = "inner_trunc" THEN [ps EXCEPT ![g].n = @ - 1]
